@@ -106,7 +106,10 @@ var DecStrings = []string{"0.0", "0.00", "1.0", "1.00", "0.5", "-0.5", "1.5", "-
 	"99999999999.9", "2147483647.5", "-2147483648.5", "2147483648.0", "0.999", "10.0", "100.0", "-100.0"}
 
 var StringPool = []string{"", "a", "abc", "b", "A", "é", "€", "😀", "é", "1", "1.0", " 1", "+1", "-1", "1e3", "true", "T", "yes", "false",
-	"2020", "2020-01", "2020-01-15", "2020-13-01", "2020-01-15T10:00:00Z", "T10:00", "10:00", "24:00", "5 'mg'", "5", "5 days", "5days", "1 'wk'", "abc def"}
+	"2020", "2020-01", "2020-01-15", "2020-13-01", "2020-01-15T10:00:00Z", "T10:00", "10:00", "24:00", "5 'mg'", "5", "5 days", "5days", "1 'wk'", "abc def",
+	// characters that mean something inside a literal but are plain characters in a value: a backslash, an apostrophe at
+	// either end, a backslash followed by n, a written-out escape
+	"a\\b", "Jones'", "'t Hart'", "a\\nb", "a\nb", "\\u0041"}
 
 type temporal struct{ lit, kind, class string }
 
@@ -311,6 +314,14 @@ func ElementPool() []Val {
 		str("f.str.abc", "string", "fhir.str", "abc", fhir.String("abc")),
 		str("f.str.1", "string", "fhir.str", "1", fhir.String("1")),
 		str("f.str.e", "string", "fhir.str.nonascii", "é😀", fhir.String("é😀")),
+		str("f.str.backslash", "string", "fhir.str.escapes", "a\\b", fhir.String("a\\b")),
+		str("f.str.apostrophe", "string", "fhir.str.escapes", "Jones'", fhir.String("Jones'")),
+		str("f.str.apostrophes", "string", "fhir.str.escapes", "'t Hart'", fhir.String("'t Hart'")),
+		str("f.str.backslash-n", "string", "fhir.str.escapes", "a\\nb", fhir.String("a\\nb")),
+		str("f.code.backslash", "code", "fhir.code.escapes", "a\\b", fhir.Code("a\\b")),
+		num("f.dec.1.5e3", "decimal", "fhir.dec.exp", "1.5e3", &dtpb.Decimal{Value: "1.5e3"}),
+		num("f.dec.1E+2", "decimal", "fhir.dec.exp", "1E+2", &dtpb.Decimal{Value: "1E+2"}),
+		num("f.dec.1e-05", "decimal", "fhir.dec.exp", "1e-05", &dtpb.Decimal{Value: "1e-05"}),
 		str("f.code.a", "code", "fhir.code", "a", fhir.Code("a")),
 		str("f.code.enum", "code", "fhir.code.enum", "female", &ppb.Patient_GenderCode{Value: cpb.AdministrativeGenderCode_FEMALE}),
 		str("f.id", "id", "fhir.id", "a", fhir.ID("a")),
